@@ -17,7 +17,7 @@ func init() {
 	props["C19"] = &Prop{Gen: genC19, Exec: execC19}
 }
 
-// hash tokens: XX = 32 x XX; fXX = first byte; lXX = last byte; mXX = byte 15; else 64 hex digits
+// hash tokens: XX = 32 x XX; fXX = first byte; lXX = last byte; mXX = byte 15; nXX = byte 16; else 64 hex digits
 func hashTok(t string) chainhash.Hash {
 	var h chainhash.Hash
 	switch {
@@ -32,6 +32,8 @@ func hashTok(t string) chainhash.Hash {
 		h[31] = unhx(t[1:])[0]
 	case len(t) == 3 && t[0] == 'm':
 		h[15] = unhx(t[1:])[0]
+	case len(t) == 3 && t[0] == 'n':
+		h[16] = unhx(t[1:])[0]
 	default:
 		copy(h[:], unhx(t))
 	}
@@ -147,7 +149,7 @@ func execC18(c Case) string {
 
 func genC18(r *Rng, tier string, emit func(Case)) {
 	e := func(op, cls string, args ...string) { emit(Case{op, cls, args}) }
-	hashes := []string{"00", "01", "ff", "f01", "f02", "l01", "l02", "m01", "f80", "l80"}
+	hashes := []string{"00", "01", "ff", "f01", "f02", "l01", "l02", "m01", "n01", "f80", "l80"}
 	idxs := []string{"0", "1", "4294967295"}
 	vals := []string{"0", "1", "2100000000000000", "-1", "5"}
 	scripts := []string{"-", "00", "0000", "01", "0001", "ff", "00ff"}
